@@ -37,6 +37,14 @@ type stats struct {
 	ooo, flushes, flushesInflight, flushesTopBusy        int64
 	discarded, dropped, servedAfterRestart, stale        int64
 	capReached                                           int64
+
+	// requests delivered into the Top port's incoming buffer and still unretrieved when a control message is processed
+	flushesTopQueued, queuedAtDiscard int64 // DiscardTransactions retrieved with >= 1 request waiting / such requests
+	flushesTopQueuedCapFull           int64 // ... of which with the buffer at capacity (the rest: bottom port / width limited)
+	arrivedInInterval                 int64 // delivered between DiscardTransactions and Restart (drained by Restart as well)
+	leftAtRestart                     int64 // still waiting when Restart was retrieved (the unchanged buffer leaves none)
+	lazyDropped                       int64 // ... of which taken from the port later without being forwarded or answered
+	sentBeforeDeliveredAfter          int64 // pushed by the requester before Restart was processed, delivered after it: served normally
 }
 
 // treq is the checker's view of one request injected at the Top port.
@@ -48,6 +56,10 @@ type treq struct {
 	accSeq    int // Top retrieve event outside a flush interval (-1 = not accepted)
 	dropSeq   int // Top retrieve event inside a flush interval (-1 = not dropped)
 	discarded bool
+	atDiscard bool // waiting in the Top port's incoming buffer when a DiscardTransactions was retrieved
+	inIntvl   bool // delivered into the Top port's incoming buffer between DiscardTransactions and Restart
+	leftOver  bool // still waiting there when the Restart was retrieved: discarded by the flush protocol
+	restartCy int64
 	epoch     int // number of restarts seen before acceptance
 	fwd       *fwd
 	rspSeq    int // Top send event of the response (-1 = none)
@@ -142,6 +154,7 @@ func check(s scenario, out *runOut) (st stats) {
 	flushing := false
 	epoch := 0
 	acks := 0
+	lastRestartCycle := int64(0)
 
 	for _, e := range out.events {
 		switch e.Port {
@@ -156,6 +169,12 @@ func check(s scenario, out *runOut) (st stats) {
 				t.recvSeq = e.Seq
 				t.msg = e.Msg.(mem.AccessReq)
 				waiting = append(waiting, t)
+				if flushing {
+					t.inIntvl = true
+					st.arrivedInInterval++
+				} else if sent, ok := out.reqs[s.Ops[t.op].Who].SentAt[t.id]; ok && epoch > 0 && sent < lastRestartCycle {
+					st.sentBeforeDeliveredAfter++
+				}
 			case simkit.KRetrieve:
 				t := byID[e.Msg.Meta().ID]
 				if t == nil || len(waiting) == 0 || waiting[0] != t {
@@ -166,6 +185,13 @@ func check(s scenario, out *runOut) (st stats) {
 				if flushing {
 					t.dropSeq = e.Seq
 					st.dropped++
+					continue
+				}
+				if t.leftOver {
+					// taken from the port after the restart without having been forwarded: dropped late, which the
+					// property allows (nothing may be forwarded or answered for it, checked at the Bottom / Top sends)
+					t.dropSeq = e.Seq
+					st.lazyDropped++
 					continue
 				}
 				t.accSeq = e.Seq
@@ -202,6 +228,12 @@ func check(s scenario, out *runOut) (st stats) {
 				switch {
 				case t.rspSeq >= 0:
 					return fail("C15|duplicate-response", fmt.Sprintf("op %d answered a second time", t.op), x)
+				case t.leftOver:
+					x["delivered_to_top_port_cycle"], x["restart_cycle"] = out.events[t.recvSeq].Cycle, t.restartCy
+					x["waiting_at_discard"], x["delivered_between_discard_and_restart"] = t.atDiscard, t.inIntvl
+					return fail("C15|response-for-request-queued-at-top-port-before-restart",
+						fmt.Sprintf("op %d had been delivered into the Top port's buffer (cycle %d) before the Restart was processed (cycle %d), so the flush discards it; yet it is answered after the restart",
+							t.op, out.events[t.recvSeq].Cycle, t.restartCy), x)
 				case t.discarded:
 					return fail("C15|response-for-discarded-request",
 						fmt.Sprintf("op %d was in flight when DiscardTransactions was processed, yet a response for it is sent afterwards", t.op), x)
@@ -298,6 +330,13 @@ func check(s scenario, out *runOut) (st stats) {
 				}
 				t.fwd = f
 				f.t = t
+				if t.leftOver {
+					return fail("C15|forwarded-request-queued-before-restart",
+						fmt.Sprintf("op %d had been delivered into the Top port's buffer (cycle %d) before the Restart was processed (cycle %d), so the flush discards it; yet it is sent to the lower level after the restart",
+							t.op, out.events[t.recvSeq].Cycle, t.restartCy),
+						map[string]any{"op": t.op, "cycle": e.Cycle, "delivered_to_top_port_cycle": out.events[t.recvSeq].Cycle, "restart_cycle": t.restartCy,
+							"waiting_at_discard": t.atDiscard, "delivered_between_discard_and_restart": t.inIntvl})
+				}
 				st.forwards++
 			case simkit.KRecv:
 				rsp, ok := e.Msg.(mem.AccessRsp)
@@ -344,6 +383,16 @@ func check(s scenario, out *runOut) (st stats) {
 					if out.occAt[e.Seq][0] > 0 {
 						st.flushesTopBusy++
 					}
+					if len(waiting) > 0 {
+						st.flushesTopQueued++
+						st.queuedAtDiscard += int64(len(waiting))
+						if len(queue) >= c.BufferSize {
+							st.flushesTopQueuedCapFull++
+						}
+						for _, w := range waiting {
+							w.atDiscard = true
+						}
+					}
 					for _, q := range queue {
 						q.discarded = true
 						st.discarded++
@@ -357,6 +406,14 @@ func check(s scenario, out *runOut) (st stats) {
 					}
 					flushing = false
 					epoch++
+					lastRestartCycle = e.Cycle
+					// The unchanged buffer empties the Top port while it processes Restart (the retrieves precede this
+					// event). Whatever still waits there was handed over before the restart and is discarded all the same.
+					for _, w := range waiting {
+						w.leftOver = true
+						w.restartCy = e.Cycle
+						st.leftAtRestart++
+					}
 				}
 			case simkit.KSend:
 				cm, ok := e.Msg.(*mem.ControlMsg)
